@@ -5,9 +5,21 @@ from pyvc.contract import *
 from contracts.spec import render as R
 
 
-def lib_parse(text, cut=None):
-    """the whole text in one feed() - or in two, cut right before a tag (every token is whole in its chunk)"""
+def lib_parse(text, cut=None, debug=False):
+    """the whole text in one feed() - or in two, cut right before a tag (every token is whole in its chunk);
+    debug: with DEBUG logging on for the library (what ofxget -vv sets) - the log level is not an input of the parser"""
     from ofxtools.Parser import TreeBuilder
+    if debug:
+        import logging
+        lg = logging.getLogger("ofxtools")
+        was_disabled, was_level = logging.root.manager.disable, lg.level
+        try:
+            logging.disable(logging.NOTSET); lg.setLevel(logging.DEBUG)
+            if not lg.handlers:
+                lg.addHandler(logging.NullHandler())
+            return lib_parse(text, cut)
+        finally:
+            lg.setLevel(was_level); logging.disable(was_disabled)
     b = TreeBuilder()
     if cut is None:
         b.feed(text)
@@ -25,7 +37,7 @@ def chunk_points(text):
 def check_renderings(it, fn, a):
     tree, full = a
     bad = []
-    for r in R.all_renderings(tree, full=full):
+    for ri, r in enumerate(R.all_renderings(tree, full=full)):
         try:
             got = lib_parse(r)
         except Exception as ex:
@@ -34,6 +46,13 @@ def check_renderings(it, fn, a):
             bad.append((r, got))
             if len(bad) >= 3:
                 break
+        if ri % 5 == 0:
+            try:
+                got_d = lib_parse(r, debug=True)
+            except Exception as ex:
+                got_d = f"{type(ex).__name__}: {ex}"
+            if got_d != got:
+                bad.append((r, f"with DEBUG logging on: {got_d}", got))
         ref = R.parse(r)
         if ref != tree:
             bad.append((r, "REFERENCE TOKENIZER DISAGREES WITH THE RENDERER", ref))
@@ -76,9 +95,17 @@ def cases_c02(tier):
     for lt in LONG:
         out += [[("A", [(lt, [("B1", "x")]), ("B1", "y")]), True], [("A", [(lt, "x"), ("B1", "y")]), True], [(lt, [("B1", "x"), ("AG", [])]), False],
                 [("A", [("AG", [(lt, [(lt[:-1] + "X", "v")])])]), False]]
+    # long element data (a memo, a message body)
+    out += [[("A", [("B1", "L" * 90), ("AG", [("B1", "M" * 73 + " end")])]), True]]
     nested = [("A", [("A", [("B1", "x")])]), ("A", [("AG", [("A", [("B1", "x")]), ("B1", "y")])]), ("A", [("A", [("A", [])])]), ("A", [("A", []), ("B1", "x"), ("A", [("B1", "y")])])]
     out += [[t, True] for t in nested]
     return out
+
+
+def standalone_end_tag(r, pos):
+    """is the end tag at pos a token of its own for the library's tokenizer (not the inline end tag of the element just opened)?"""
+    from ofxtools.Parser import TreeBuilder
+    return any(m.start() == pos for m in TreeBuilder.regex.finditer(r))
 
 
 def faults(r):
@@ -94,6 +121,11 @@ def faults(r):
         out.append(("misspell-end-tag", r[:s] + f"</{name}X>" + r[e:]))
         out.append(("duplicate-end-tag", r[:e] + f"</{name}>" + r[e:]))
         out.append(("text-after-end-tag", r[:e] + "zz" + r[e:]))
+        if standalone_end_tag(r, s):
+            # stray text written as a CDATA section.  Only after an end tag that is a token of its own: anywhere else the
+            # pinned tokenizer skips a CDATA section that belongs to no element without a word - known finding
+            # KF-C08-stray-cdata-skipped (replayed on every run), carved out here by position
+            out.append(("cdata-after-end-tag", r[:e] + "<![CDATA[zz]]>" + r[e:]))
         out.append(("text-after-end-tag-and-a-blank", r[:e] + " zz" + r[e:]))
         out.append(("text-on-the-line-after-end-tag", r[:e] + "\n  zz\n" + r[e:]))
     for (s1, e1, n1), (s2, e2, n2) in zip(ends, ends[1:]):
@@ -198,4 +230,65 @@ CONTRACTS = [
              ensures=[("faulted-bodies-refused-unless-still-valid", "result == []")], cases=cases_c08, native_only=True, shards=16,
              notes="every rendering of every tree with <= 3 nodes (4 in thorough) x every single fault: truncation at each character, deletion / renaming / misspelling / duplication of each end tag, transposition of adjacent end tags, text after an end tag, a stray end tag before each tag, a second top-level element; oracle = strict reference tokenizer",
              props=["C08"]),
+]
+
+
+# ------------------------------------------------------------------------------------------ deep nesting (C08)
+def check_deep_faults(it, fn, a):
+    """one canonical rendering of a chain of `depth` nested aggregates with a data element at the bottom, and every single
+    fault of it: the record of open elements has no depth at which it stops checking"""
+    depth = a[0]
+    tags = ["A", "AG"]
+    text = "".join(f"<{tags[i % 2]}>" for i in range(depth)) + "<B1>x</B1>" + "".join(f"</{tags[i % 2]}>" for i in reversed(range(depth)))
+    bad = []
+    try:
+        if lib_parse(text) != R.parse(text):
+            return [("the-chain-itself", text[:80], "parsed differently from the reference")]
+    except Exception as ex:
+        return [("the-chain-itself", text[:80], f"{type(ex).__name__}: {ex}")]
+    seen = set()
+    for kind, t in faults(text):
+        if t in seen or kind.startswith("second-") or "next-line" in kind:
+            continue
+        seen.add(t)
+        try:
+            ref = R.parse(t)
+        except R.RefError:
+            ref = None
+        try:
+            got = lib_parse(t); ok = True
+        except Exception as ex:
+            got = type(ex).__name__; ok = False
+        if ref is None and ok:
+            bad.append((kind, t[:60] + "..." + t[-60:], "accepted"))
+        elif ref is not None and (not ok or got != ref):
+            bad.append((kind, t[:60] + "..." + t[-60:], f"still valid, library gives {got if not ok else 'another tree'}"))
+        if len(bad) >= 3:
+            break
+    return bad
+
+
+def cdata_literal(it, fn, a):
+    """C03: a CDATA section is literal character data - what stands between the brackets is the value, blanks and line breaks
+    at its ends included (only element text outside CDATA is trimmed)"""
+    content = a[0]
+    text = f"<A><B1><![CDATA[{content}]]></B1><B1>plain</B1></A>"
+    try:
+        got = lib_parse(text)
+    except Exception as ex:
+        return [f"{type(ex).__name__}: {ex}"]
+    want = ("A", [("B1", content), ("B1", "plain")])
+    return [] if got == want else [f"CDATA content {content!r} arrives as {got!r}"]
+
+
+CONTRACTS += [
+    Contract("ofxtools.Parser:TreeBuilder.feed", args=[A_("depth")], call=check_deep_faults,
+             ensures=[("faulted-deep-bodies-refused-unless-still-valid", "result == []")], cases=lambda tier: [[d] for d in ((10, 63, 64, 65, 66, 130) if tier != "thorough" else (10, 63, 64, 65, 66, 100, 130, 260, 600))],
+             native_only=True, shards=6,
+             notes="chains of 10 .. 130 (600 thorough) nested aggregates, one canonical rendering, every single fault (truncation at each character, each end tag deleted / renamed / misspelt / duplicated, text and CDATA after it, transpositions, stray end tags)",
+             props=["C08"]),
+    Contract("ofxtools.Parser:TreeBuilder.feed", args=[A_("content")], call=cdata_literal,
+             ensures=[("cdata-is-literal", "result == []")], cases=lambda tier: [[c] for c in (" x", "x ", "  two  spaces  ", "\n  indented\n", "\tx\t", "x")],
+             native_only=True,
+             notes="CDATA content with blanks / line breaks at its ends arrives verbatim", props=["C03"]),
 ]
